@@ -300,6 +300,9 @@ def serialisation_part(ck):
                ({}, "map"), (M(a=1, b="x"), "model"), (D(series=2), "model"), (D(series=2, sub=Sub(baz=True)), "model"),
                (D(series=3, htype="x", detail="y", note="n", sub=Sub(unit="m", baz=True), tags=[1]), "model"),
                (d_assigned, "model"), (Sub(), "model"),
+               # numbers JSON has no word for: Python writes NaN / Infinity, as the unchanged tree does
+               ({"x": float("nan"), "y": [float("inf"), -float("inf")]}, "map"), ({"big": 10 ** 30, "neg0": -0.0, "e": 1e-320}, "map"),
+               (D(series=2, tags=[float("inf")]), "model"),
                (3, "other"), (3.5, "other"), (None, "other"), ([1], "other"),
                (bytearray(b"x"), "other")]
     ok = True
@@ -309,6 +312,8 @@ def serialisation_part(ck):
             got = io._serialize_part(v)
         except TypeError:
             got = TypeError
+        except ValueError as e:
+            got = "ValueError: " + str(e)
         if kind == "bytes":
             exp = v
         elif kind in ("str", "map"):
